@@ -48,7 +48,7 @@ package http
 
 //@ func RequestDecoder
 //@   params r
-//@   property C15
+//@   property C15 C02
 //@   requires r != nil
 //@   let ct0 = old(ctOf(r.Header))
 //@   ensures* nonnil: result != nil
@@ -85,7 +85,7 @@ package http
 
 //@ func RequestEncoder
 //@   params r
-//@   property C15
+//@   property C15 C02
 //@   requires r != nil
 //@   let ct0 = old(ctOf(r.Header))
 //@   ensures* json: typeIs(result, *json.Encoder) && result != nil
